@@ -1,6 +1,7 @@
 package main
 
 import (
+	"bytes"
 	"flag"
 	"fmt"
 	"math/rand"
@@ -60,6 +61,34 @@ func markersDrive(args []string) {
 				s = lib.RandBytes(r, lib.PayloadTokens, *maxTok)
 			}
 			rep.Guard("markers:panic", markersCase{"markers", s}, func() { judgeMarkers(rep, s, nil) })
+			if i%8 == 0 {
+				// long inputs in pairs that differ in one byte (same length): a result must be a function of its input
+				// alone, whatever was redacted or stripped just before
+				var long []byte
+				for len(long) < 64+r.Intn(240) {
+					txt := lib.ReplaceMarkers(lib.RandBytes(r, lib.PayloadTokens, 6), []byte{'?'})
+					txt = bytes.ReplaceAll(txt, []byte{'\n'}, []byte{' '})
+					if r.Intn(2) == 0 {
+						long = append(append(append(long, lib.StartM...), txt...), lib.EndM...)
+					} else {
+						long = append(append(long, txt...), 'k')
+					}
+				}
+				twin := append([]byte(nil), long...)
+				for tries := 0; tries < 20; tries++ {
+					j := r.Intn(len(twin))
+					if twin[j] >= 'a' && twin[j] <= 'y' {
+						twin[j]++
+						break
+					}
+				}
+				rep.Guard("markers:panic", markersCase{"markers", long}, func() {
+					_ = redact.RedactableString(long).Redact()
+					_ = redact.RedactableString(long).StripMarkers()
+					judgeMarkers(rep, twin, nil)
+					judgeMarkers(rep, long, nil)
+				})
+			}
 			if !tw.Full() && len(s) <= 60 {
 				rep.Guard("markers:panic", markersCase{"markers", s}, func() {
 					rs := redact.RedactableString(s)
